@@ -79,6 +79,9 @@ pub impl Vec<SpeedLimitPoint> {
             while self[idx_end].offset > speed_limit.offset_end {
                 idx_end -= 1;
             }
+            // Speed in force at the end offset before this limit is applied (inserting the start
+            // point below can make `self[idx_end]` refer to the new point)
+            let speed_old_end = self[idx_end].speed_limit;
 
             // If the speed starts at an offset not already in speeds
             if speed_limit.offset_start < self[idx_start].offset {
@@ -101,7 +104,7 @@ pub impl Vec<SpeedLimitPoint> {
 
             // If the old speed does not end at offset end
             if self[idx_end].offset < speed_limit.offset_end {
-                let speed_old = self[idx_end].speed_limit;
+                let speed_old = speed_old_end;
 
                 // If the speed is different, insert the old speed at offset end
                 if speed_old != min_speed(speed_old, speed_limit.speed) {
